@@ -1,6 +1,9 @@
 (* C01 - the box/flow induction extended by the two constructors that render a child with size ():
    Padding(width='clip') and Overlay(width='pack').  Their fixed child must lie in the fragments of
-   WidgetDimsTree / WidgetDimsFixedTree (it may not itself contain a clip Padding or a pack Overlay). *)
+   WidgetDimsTree / WidgetDimsFixedTree (it may not itself contain a clip Padding or a pack Overlay).
+   This induction also covers widgets without rows (Pile([]) and what wraps it): [min_rows w] is the number of
+   rows the contract guarantees, 0 or 1.  Columns always has a row (ba7db6e); the top widget of an Overlay
+   must have one (a 0-row top widget with height='pack' is a genuine failure of the real code). *)
 From Coq Require Import ZArith List Bool Lia ZifyBool.
 Import ListNotations.
 From Urwid Require Import WidgetDims WidgetDimsProofs WidgetDimsFrame WidgetDimsOverlay WidgetDimsColsArith
@@ -11,6 +14,22 @@ Open Scope Z_scope.
 Definition fixed_child_ok (w : widget) : bool :=
   proved_fragment w && fixed_fragment w && s_fixed (m_sizing (denote w)).
 
+(* rows guaranteed by the contract: 0 for an empty Pile and for decorations and Piles of such widgets *)
+Fixpoint min_rows (w : widget) : Z :=
+  match w with
+  | WLeaf _ => 1
+  | WAttr w => min_rows w
+  | WBoxAdapter _ _ => 1
+  | WPadding w _ wt _ _ _ => match wt with WClip => 1 | _ => min_rows w end
+  | WFiller w _ _ _ _ _ => min_rows w
+  | WPile items _ => match items with PNil => 0 | _ => min_rows_p items end
+  | WColumns _ _ _ _ => 1
+  | WFrame _ _ _ _ => 1
+  | WOverlay _ _ _ => 1
+  end
+with min_rows_p (l : pitems) : Z :=
+  match l with PNil => 1 | PCons w _ _ r => Z.min (min_rows w) (min_rows_p r) end.
+
 Fixpoint proved_fragment2 (w : widget) : bool :=
   match w with
   | WLeaf _ => true
@@ -18,7 +37,7 @@ Fixpoint proved_fragment2 (w : widget) : bool :=
   | WBoxAdapter w _ => proved_fragment2 w
   | WPadding w _ wt _ _ _ => match wt with WClip => fixed_child_ok w | _ => proved_fragment2 w end
   | WFiller w _ _ _ _ _ => proved_fragment2 w
-  | WPile items _ => proved_fragment2_p items && (match items with PNil => false | _ => true end)
+  | WPile items _ => proved_fragment2_p items                    (* the empty Pile included *)
   | WColumns items d mw fp =>
       proved_fragment2_c items (cols_sizing (denote_c items)) && (fp <? zlength (denote_c items))
   | WFrame body hd ft _ => proved_fragment2 body && proved_fragment2_o hd && proved_fragment2_o ft
@@ -27,7 +46,7 @@ Fixpoint proved_fragment2 (w : widget) : bool :=
       && (match ov_wt p with
           | WPack => fixed_child_ok t
           | WGiven _ | WRelative _ =>
-              proved_fragment2 t
+              proved_fragment2 t && (min_rows t =? 1)
               && (match ov_ht p with
                   | HRelative pct => (pct <=? 100) && (match ov_minh p with Some m => 0 <=? m | None => true end)
                   | _ => true
@@ -79,20 +98,38 @@ Proof.
   - specialize (IH w H L). unfold fpack_ok in *. cbn [attr_sem m_sizing m_pack]. exact IH.
 Qed.
 
+Lemma min_rows_ranges :
+  (forall w, 0 <= min_rows w <= 1) /\ (forall l, 0 <= min_rows_p l <= 1).
+Proof.
+  assert (H : forall w, 0 <= min_rows w <= 1).
+  { apply (widget_mut (fun w => 0 <= min_rows w <= 1) (fun l => 0 <= min_rows_p l <= 1)
+             (fun _ => True) (fun _ => True)); cbn [min_rows min_rows_p]; intros; auto; try lia;
+      repeat match goal with |- context [match ?x with _ => _ end] => destruct x end;
+      cbn [min_rows_p] in *; lia. }
+  split; [exact H|]. induction l; cbn [min_rows_p]; [lia|]. specialize (H w). lia.
+Qed.
+Definition min_rows_range := proj1 min_rows_ranges.
+Definition min_rows_p_range := proj2 min_rows_ranges.
+
+Lemma pgood_weaken n m l : m <= n -> Forall (pgoodN n) l -> Forall (pgoodN m) l.
+Proof.
+  intros H F. eapply Forall_impl; [|exact F]. intros it G. exact (good_weaken n m _ H G).
+Qed.
+
 Theorem contract_ext :
-  forall w, wf_b w = true -> proved_fragment2 w = true -> leaves_ok2 w -> Good (denote w).
+  forall w, wf_b w = true -> proved_fragment2 w = true -> leaves_ok2 w -> GoodN (min_rows w) (denote w).
 Proof.
   apply (widget_mut
-    (fun w => wf_b w = true -> proved_fragment2 w = true -> leaves_ok2 w -> Good (denote w))
+    (fun w => wf_b w = true -> proved_fragment2 w = true -> leaves_ok2 w -> GoodN (min_rows w) (denote w))
     (fun l => forall ps, wf_p l ps = true -> proved_fragment2_p l = true -> leaves_ok2_p l ->
-              Forall pgood (denote_p l) /\ Forall (pile_ok ps) (denote_p l))
+              Forall (pgoodN (min_rows_p l)) (denote_p l) /\ Forall (pile_ok ps) (denote_p l))
     (fun l => forall cs, wf_c l cs = true -> proved_fragment2_c l cs = true -> leaves_ok2_c l ->
-              Forall cgood (denote_c l) /\ Forall (cols_item_ok cs) (denote_c l))
-    (fun o => wf_o o = true -> proved_fragment2_o o = true -> leaves_ok2_o o -> opt_flow_good (denote_o o)));
-    cbn [wf_b proved_fragment2 leaves_ok2 denote]; auto.
+              Forall (cgoodN 0) (denote_c l) /\ Forall (cols_item_ok cs) (denote_c l))
+    (fun o => wf_o o = true -> proved_fragment2_o o = true -> leaves_ok2_o o -> opt_flow_goodN 0 (denote_o o)));
+    cbn [wf_b proved_fragment2 leaves_ok2 denote min_rows]; auto.
   - (* leaf *) intros d _ _ [L _]. exact L.
   - (* attr *) intros w IH Hw Hf Hl. apply attr_good; auto.
-  - (* boxadapter *) intros w IH h Hw Hf Hl. apply boxadapter_good; try lia. apply IH; auto; lia.
+  - (* boxadapter *) intros w IH h Hw Hf Hl. apply (boxadapter_good (min_rows w) 1); try lia. apply IH; auto; lia.
   - (* padding *) intros w IH a wt mw l r Hw Hf Hl.
     destruct wt as [n| | |pct].
     + apply padding_good; try lia; [apply IH; auto; lia|discriminate].
@@ -102,39 +139,48 @@ Proof.
       apply padding_clip_good; [|lia].
       apply fixed_contract_by_induction; auto; lia.
     + apply padding_good; try lia; [apply IH; auto; lia|discriminate].
-  - (* filler *) intros w IH va ht mh t b Hw Hf Hl.
+  - (* filler *) intros w IH va ht mh t b Hw Hf Hl. pose proof (min_rows_range w).
     apply filler_good; try lia. apply IH; auto; lia.
   - (* pile *) intros items IH fp Hw Hf Hl.
     destruct (IH (pile_sizing (denote_p items)) ltac:(lia) ltac:(lia) Hl) as [A B].
-    apply pile_good; auto. apply denote_p_nonempty. lia.
+    destruct items as [|w k n r].
+    + apply pile_good; [lia|intros; lia|constructor|constructor].
+    + pose proof (min_rows_p_range (PCons w k n r)).
+      apply pile_good; auto. intros _. cbn. discriminate.
   - (* columns *) intros items IH d mw fp Hw Hf Hl.
     destruct (IH (cols_sizing (denote_c items)) ltac:(lia) ltac:(lia) Hl) as [A B].
-    apply cols_good; auto; lia.
+    apply (cols_good 0); auto; lia.
   - (* frame *) intros body IHb hd IHh ft IHf fpart Hw Hf Hl. destruct Hl as [L1 [L2 L3]].
-    apply frame_good; try lia.
-    + apply IHb; auto; lia.
+    pose proof (min_rows_range body).
+    apply (frame_good 0 1); try lia.
+    + apply (good_weaken (min_rows body)); [lia|]. apply IHb; auto; lia.
     + apply IHh; auto; lia.
     + apply IHf; auto; lia.
   - (* overlay *) intros t IHt b IHb p Hw Hf Hl. destruct Hl as [L1 L2].
     repeat match type of Hw with (_ && _) = true => apply andb_prop in Hw; let H := fresh "W" in destruct Hw as [Hw H] end.
     apply andb_prop in Hf. destruct Hf as [Hfb Hft].
+    assert (GB : exists nb, GoodN nb (denote b)) by (exists (min_rows b); auto).
     destruct (ov_wt p) as [n| | |pct] eqn:EW; try discriminate.
-    + apply andb_prop in Hft. destruct Hft as [P1 P2].
+    + apply andb_prop in Hft. destruct Hft as [P1 P2]. apply andb_prop in P1. destruct P1 as [P1 P3].
       apply overlay_good; auto.
-      eapply overlay_given_of_bools; eauto; rewrite EW; reflexivity.
+      * replace 1 with (min_rows t) by lia. auto.
+      * eapply overlay_given_of_bools; eauto; rewrite EW; reflexivity.
     + (* width = 'pack' *)
       unfold fixed_child_ok in Hft. destruct L1 as [L1a L1b].
       apply (overlay_pack_good (denote t) (denote b) p); auto; try lia.
       apply fixed_contract_by_induction; auto; lia.
-    + apply andb_prop in Hft. destruct Hft as [P1 P2].
+    + apply andb_prop in Hft. destruct Hft as [P1 P2]. apply andb_prop in P1. destruct P1 as [P1 P3].
       apply overlay_good; auto.
-      eapply overlay_given_of_bools; eauto; rewrite EW; reflexivity.
+      * replace 1 with (min_rows t) by lia. auto.
+      * eapply overlay_given_of_bools; eauto; rewrite EW; reflexivity.
   - (* PNil *) intros ps _ _ _. split; constructor.
-  - (* PCons *) intros w IHw k n r IHr ps Hw Hf Hl. cbn [wf_p proved_fragment2_p leaves_ok2_p denote_p] in *.
+  - (* PCons *) intros w IHw k n r IHr ps Hw Hf Hl.
+    cbn [wf_p proved_fragment2_p leaves_ok2_p denote_p min_rows_p] in *.
     destruct Hl as [Hl1 Hl2].
     destruct (IHr ps ltac:(lia) ltac:(lia) Hl2) as [A B].
     split; constructor; auto.
-    + unfold pgood. cbn. apply IHw; auto; lia.
+    + unfold pgoodN. cbn [pi_sem]. apply (good_weaken (min_rows w)); [lia|]. apply IHw; auto; lia.
+    + apply (pgood_weaken (min_rows_p r)); [lia|exact A].
     + unfold pile_ok. cbn. lia.
   - (* CNil *) intros cs _ _ _. split; constructor.
   - (* CCons *) intros w IHw k n b r IHr cs Hw Hf Hl.
@@ -143,9 +189,10 @@ Proof.
     apply andb_prop in Hf. destruct Hf as [Hf Hf4]. apply andb_prop in Hf. destruct Hf as [Hf Hf3].
     apply andb_prop in Hf. destruct Hf as [Hf1 Hf2].
     destruct (IHr cs Hw3 Hf4 Hl2) as [A B].
-    assert (G : Good (denote w)) by (apply IHw; auto).
+    assert (G : GoodN 0 (denote w)).
+    { pose proof (min_rows_range w). apply (good_weaken (min_rows w)); [lia|]. apply IHw; auto. }
     split; constructor; auto.
-    + unfold cgood. cbn [ci_sem ci_kind]. split; [exact G|]. intros ->.
+    + unfold cgoodN. cbn [ci_sem ci_kind]. split; [exact G|]. intros ->.
       destruct (s_fixed (m_sizing (denote w))) eqn:EF.
       * apply leafish_fpack2; auto. lia.
       * unfold fpack_ok. rewrite EF. discriminate.
@@ -157,6 +204,7 @@ Proof.
       * destruct k; lia.
       * destruct b; [exact Hf3|]. intros Hcs. rewrite Hcs in Hf3. cbn in Hf3. exact Hf3.
       * intros Hcs. rewrite Hcs in Kb. cbn in Kb. exact Kb.
-  - (* OSome *) intros w IH Hw Hf Hl. cbn [wf_o proved_fragment2_o leaves_ok2_o denote_o opt_flow_good] in *.
-    split; [apply IH; auto; lia|lia].
+  - (* OSome *) intros w IH Hw Hf Hl. cbn [wf_o proved_fragment2_o leaves_ok2_o denote_o opt_flow_goodN] in *.
+    pose proof (min_rows_range w).
+    split; [apply (good_weaken (min_rows w)); [lia|]; apply IH; auto; lia|lia].
 Qed.
